@@ -363,6 +363,59 @@ def oracle_labels(ck, rng):
         acl.PcaClassifier = real
 
 
+def oracle_auto_solver_boundary(ck, rng):
+    """the default solver policy on stacks whose larger side is exactly 500 (and just around it, 499 / 501 with few components): the
+    decomposition is that of the exact SVD (the randomised solver is only chosen beyond 500)"""
+    from acryo.classification._dask_pca import DaskPCA
+    import dask.array as da
+    for N, F, k in ((60, 500, 2), (500, 40, 3), (60, 499, 2)):
+        X = (rng.normal(size=(N, F)) * np.linspace(3.0, 0.5, F)).astype(np.float64)
+        S = np.linalg.svd(X - X.mean(axis=0), compute_uv=False)
+        ck.oracle_count("auto_solver_boundary", 1, 1)
+        try:
+            p_ = DaskPCA(n_components=k, svd_solver="auto"); p_.fit(da.from_array(X, chunks=(max(N // 2, F), F) if N >= F else (N, F)))
+            dev = float(np.abs(np.asarray(p_.singular_values_) - S[:k]).max() / S[0])
+            bad = None if dev <= 1e-9 else f"singular values differ from the exact ones by {dev:.2g} (relative)"
+        except Exception as e:  # noqa
+            bad = f"raised {type(e).__name__}: {str(e)[:120]}"
+        if bad:
+            ck.violation(what=f"DaskPCA(svd_solver='auto') on a {N} x {F} stack, {k} components: {bad}", inp={"N": N, "F": F, "k": k}, key={"site": "auto-solver-boundary", "N": N, "F": F},
+                         oracle="auto_solver_boundary")
+
+
+def oracle_predict_masked(ck, rng):
+    """predict() classifies new images in the same (masked) space the classifier was fitted in: the fitted stack gets its own labels back, and so
+    do noisy copies of it -- three groups, a soft mask that down-weights the region where an unrelated strong pattern lives"""
+    from acryo.classification import PcaClassifier
+    import dask.array as da
+    for it in range(2 if ck.tier == "quick" else 8):
+        shape = (6, 8, 8); N = 45
+        zz = np.indices(shape)[0]
+        mask = np.where(zz < 3, 1.0, 0.08).astype(np.float32)           # soft: the lower half of the box counts 8 %
+        grp = np.arange(N) % 3
+        pat = np.zeros((3,) + shape, np.float32)
+        pat[1][:3] = rng.normal(size=(3, 8, 8)) * 2.0; pat[2][:3] = rng.normal(size=(3, 8, 8)) * 2.0      # what separates the groups (inside the mask)
+        distract = np.zeros(shape, np.float32); distract[3:] = rng.normal(size=(3, 8, 8)) * 6.0           # strong, unrelated to the groups (outside)
+        amp = rng.normal(size=N).astype(np.float32)
+        X = (rng.normal(size=(N,) + shape) * 0.3 + pat[grp] + amp[:, None, None, None] * distract).astype(np.float32)
+        ck.oracle_count("predict_in_masked_space", 1, 1)
+        try:
+            clf = PcaClassifier(da.from_array(X, chunks=(15,) + shape), mask, n_components=2, n_clusters=3, seed=0).run()
+            lab = np.asarray(clf.labels)
+            pure = all(len(set(lab[grp == g].tolist())) == 1 for g in range(3)) and len(set(lab.tolist())) == 3
+            again = np.asarray(clf.predict(da.from_array(X, chunks=(9,) + shape)))
+            noisy = np.asarray(clf.predict(da.from_array((X + rng.normal(size=X.shape).astype(np.float32) * 0.05), chunks=(45,) + shape)))
+            bad = None
+            if not pure: bad = f"three clearly separated groups are not given three labels: {lab.tolist()}"
+            elif not np.array_equal(again, lab): bad = f"predict(fitted stack) differs from the labels in {int((again != lab).sum())} of {N} images"
+            elif not np.array_equal(noisy, lab): bad = f"predict(slightly noisy copies) differs from the labels in {int((noisy != lab).sum())} of {N} images"
+        except Exception as e:  # noqa
+            bad = f"raised {type(e).__name__}: {e}"
+        if bad:
+            ck.violation(what=f"PcaClassifier with a soft mask: {bad}", inp={"N": N, "shape": list(shape), "iteration": it, "seed": ck.seed}, key={"site": "predict-masked"},
+                         oracle="predict_in_masked_space")
+
+
 def oracle_dask_pca_surface(ck, rng):
     """the out-of-core PCA object itself, for the solvers it can choose and several chunkings: fit followed by transform, fit_transform
     and inverse_transform agree with the exact SVD of the centred data (projections up to the sign of each component)"""
@@ -430,6 +483,8 @@ def run(ck: common.Check):
     oracle_pca(ck, rng)
     oracle_labels(ck, rng)
     oracle_dask_pca_surface(ck, np.random.default_rng(ck.seed + 18018))
+    oracle_predict_masked(ck, np.random.default_rng(ck.seed + 18118))
+    oracle_auto_solver_boundary(ck, np.random.default_rng(ck.seed + 18218))
 
 
 def replay(data):
